@@ -894,3 +894,97 @@ def pointers_to(body, targets):
                     changed = True
                     break
     return ptrs
+
+
+def path_values(body, O, bb):
+    """Every switch (two-way or multi-way) that decides whether block `bb` runs, outermost first:
+    [(switch block, scrutinee origin, values)] where values is ('in', {ints}) when bb is reached through the listed cases
+    only, or ('not', {ints}) when it is reached through the otherwise edge only."""
+    out = []
+    for s, t in body.switches():
+        if s == bb or not body.dominates(s, bb):
+            continue
+        by_target = {}
+        for v, tg in zip(t["vals"], t["targets"]):
+            by_target.setdefault(tg, set()).add(int(v))
+        reach = {tg: bb in body.reach_from(tg, avoid=(s,)) for tg in set(by_target) | {t["otherwise"]}}
+        hit = [tg for tg, r in reach.items() if r]
+        if len(hit) != 1:
+            continue
+        tg = hit[0]
+        if tg in by_target and tg != t["otherwise"]:
+            vals = ("in", frozenset(by_target[tg]))
+        elif tg == t["otherwise"] and tg not in by_target:
+            vals = ("not", frozenset(int(v) for v in t["vals"]))
+        else:
+            continue
+        out.append((s, O.switch_cond(s), vals))
+    out.sort(key=lambda x: len(body.dom.get(x[0], ())))
+    return out
+
+
+def decision_paths(body, O, to_bb, other_bb=None, limit=256):
+    """Paths through the (loop-free) decision region that ends in block `to_bb`: the region starts at the deepest block that
+    dominates `to_bb` (and `other_bb`, the block of the opposite verdict, when given).  Returns
+    (region entry, [[(switch block, scrutinee origin, ('in'|'not', values))...] per path]) or (entry, None) when the region
+    has a cycle or more than `limit` paths."""
+    common = set(body.dom.get(to_bb, ()))
+    if other_bb is not None:
+        common &= set(body.dom.get(other_bb, ()))
+    common.discard(to_bb)
+    if not common:
+        return None, None
+    entry = max(common, key=lambda x: len(body.dom.get(x, ())))
+    can_reach = set()
+    stack = [to_bb]
+    while stack:
+        n = stack.pop()
+        if n in can_reach:
+            continue
+        can_reach.add(n)
+        if n != entry:
+            stack.extend(p for p in body.pred[n] if p in body.reachable)
+    paths = []
+    conds = {}
+
+    def cond(s):
+        if s not in conds:
+            conds[s] = O.switch_cond(s)
+        return conds[s]
+
+    def go(n, acc, seen):
+        if len(paths) > limit:
+            return False
+        if n == to_bb:
+            paths.append(list(acc))
+            return True
+        if n in seen:
+            return False
+        t = body.blocks[n]["term"]
+        if t is None:
+            return True
+        seen = seen | {n}
+        if t["k"] == "switch":
+            by_target = {}
+            for v, tg in zip(t["vals"], t["targets"]):
+                by_target.setdefault(tg, set()).add(int(v))
+            for tg in sorted(set(by_target) | {t["otherwise"]}):
+                if tg not in can_reach:
+                    continue
+                if tg in by_target and tg != t["otherwise"]:
+                    v = ("in", frozenset(by_target[tg]))
+                elif tg not in by_target:
+                    v = ("not", frozenset(int(x) for x in t["vals"]))
+                else:
+                    v = ("any", frozenset())
+                if not go(tg, acc + [(n, cond(n), v)], seen):
+                    return False
+            return True
+        for tg in body.succ[n]:
+            if tg in can_reach:
+                if not go(tg, acc, seen):
+                    return False
+        return True
+
+    ok = go(entry, [], frozenset())
+    return entry, (paths if ok and len(paths) <= limit else None)
